@@ -65,6 +65,9 @@ def conditions(path: List[Tuple[cfgmod.Node, object]]) -> List[Decision]:
   for n, lab in path:
     a = n.ast
     if n.kind == 'test' and lab in ('T', 'F'):
+      for w in ast.walk(a):
+        if isinstance(w, ast.NamedExpr) and isinstance(w.target, ast.Name):
+          env[w.target.id] = _Sub(env).visit(copy.deepcopy(w.value))
       out.append((_Sub(env).visit(copy.deepcopy(a)), lab == 'T'))
     elif n.kind == 'stmt' and isinstance(a, ast.Assign) and len(a.targets) == 1 and isinstance(a.targets[0], ast.Name):
       v = _Sub(env).visit(copy.deepcopy(a.value))
@@ -196,3 +199,83 @@ def implies(decisions: Sequence[Decision], formula: Callable[[Atoms], Optional[b
       if f is not True:
         return False, val
   return True, None
+
+
+def substitute_on_path(path: List[Tuple[cfgmod.Node, object]], expr: ast.AST) -> ast.AST:
+  """`expr` (evaluated after the last node of `path`) with the locals assigned on the path substituted."""
+  env: Dict[str, ast.AST] = {}
+  for n, lab in path:
+    a = n.ast
+    if n.kind == 'test':
+      for w in ast.walk(a):
+        if isinstance(w, ast.NamedExpr) and isinstance(w.target, ast.Name):
+          env[w.target.id] = _Sub(env).visit(copy.deepcopy(w.value))
+    if n.kind == 'stmt' and isinstance(a, ast.Assign) and len(a.targets) == 1:
+      t = a.targets[0]
+      v = _Sub(env).visit(copy.deepcopy(a.value))
+      if isinstance(t, ast.Name):
+        env[t.id] = v
+      elif isinstance(t, (ast.Tuple, ast.List)) and isinstance(v, (ast.Tuple, ast.List)) and len(t.elts) == len(v.elts):
+        for te, ve in zip(t.elts, v.elts):
+          if isinstance(te, ast.Name):
+            env[te.id] = ve
+      elif isinstance(t, (ast.Tuple, ast.List)):
+        for i, te in enumerate(t.elts):
+          if isinstance(te, ast.Name):
+            env[te.id] = ast.Subscript(value=v, slice=ast.Constant(value=i), ctx=ast.Load())
+  return _Sub(env).visit(copy.deepcopy(expr))
+
+
+class NoValue(Exception):
+  pass
+
+
+def neval(e: ast.AST, env: Dict[str, object]):
+  """Numeric evaluation of a closed arithmetic/comparison expression over `env` (unparsed name -> python value)."""
+  key = unparse(e, 0)
+  if key in env:
+    return env[key]
+  if isinstance(e, ast.Constant):
+    return e.value
+  if isinstance(e, ast.NamedExpr):
+    return neval(e.value, env)
+  if isinstance(e, ast.Tuple):
+    return tuple(neval(x, env) for x in e.elts)
+  if isinstance(e, ast.Subscript) and isinstance(e.slice, ast.Constant):
+    return neval(e.value, env)[e.slice.value]
+  if isinstance(e, ast.BinOp):
+    l, r = neval(e.left, env), neval(e.right, env)
+    ops = {ast.Add: lambda: l + r, ast.Sub: lambda: l - r, ast.Mult: lambda: l * r, ast.Div: lambda: l / r}
+    if type(e.op) in ops:
+      return ops[type(e.op)]()
+  if isinstance(e, ast.UnaryOp):
+    v = neval(e.operand, env)
+    if isinstance(e.op, ast.USub):
+      return -v
+    if isinstance(e.op, ast.Not):
+      return not v
+  if isinstance(e, ast.Call) and isinstance(e.func, ast.Name) and e.func.id in ('abs', 'min', 'max', 'float', 'int') and not e.keywords:
+    return {'abs': abs, 'min': min, 'max': max, 'float': float, 'int': int}[e.func.id](*[neval(a, env) for a in e.args])
+  if isinstance(e, ast.Compare):
+    l = neval(e.left, env)
+    for op, c in zip(e.ops, e.comparators):
+      r = neval(c, env)
+      if isinstance(op, (ast.Is, ast.IsNot)):
+        ok = (l is r) if isinstance(op, ast.Is) else (l is not r)
+      elif isinstance(op, (ast.Eq, ast.NotEq)):
+        ok = (l == r) if isinstance(op, ast.Eq) else (l != r)
+      else:
+        try:
+          ok = {ast.Lt: lambda: l < r, ast.LtE: lambda: l <= r, ast.Gt: lambda: l > r, ast.GtE: lambda: l >= r}[type(op)]()
+        except (KeyError, TypeError):
+          raise NoValue(key)
+      if not ok:
+        return False
+      l = r
+    return True
+  if isinstance(e, ast.BoolOp):
+    vs = [neval(v, env) for v in e.values]
+    return all(vs) if isinstance(e.op, ast.And) else any(vs)
+  if isinstance(e, ast.IfExp):
+    return neval(e.body, env) if neval(e.test, env) else neval(e.orelse, env)
+  raise NoValue(key)
